@@ -142,6 +142,14 @@ CHECKS["C03"] = dict(
     note="The reference parse is the as-built algorithm with its tie rules made explicit. Rows with a function-name guess, a one-token parenthesis (chemistry state pre-pass) or merged double bars are outside the plain class (counted in the evidence). In suite rows only rows made by the parser (data-changed='added') are judged against priorities: the author's own mrows are kept as written. One known finding (form choice looks only at the next token) is listed and its examples judged in every run.",
 )
 
+CHECKS["C16"] = dict(
+    category="model_checking",
+    technique="TLA+ specification of what is owed to a written number (NumberFold.tla: locale grammar over digit / block separator / decimal mark, cuts into tokens, contexts; classes Required / Forbidden / Unspecified) model-checked by TLC over every written form up to a bound; the forms concretised under four locales and cut into mn/mo/mtext tokens, set_mathml / speech / braille of the cut and of the one-token spelling recorded from the library, each case classified and judged by TLC (Trace_NumberFold.tla); separator preferences also changed one at a time inside a session",
+    text="Design: over all written forms of length <= 7 (quick) / 9 (thorough), all cuts, 12 contexts and both comma roles the classes are a partition, Required forms are numbers of the grammar, Forbidden ones are clear non-numbers or comma lists inside fences. Implementation: the enumerated forms plus grammar-built longer numbers and their near misses (1 576 forms in quick), seeded cuts (all cuts of forms with <= 3 free separators in thorough), seeded contexts and locales (US, decimal comma via Language, Swiss, forced point): Required => canonical MathML, speech and Nemeth braille equal the one-token spelling's; no mn that took in a separator token is a clear non-number; a comma list directly inside fences is not folded; two chains of six separator settings changed one preference at a time in one session, each judged the same way.",
+    design_ref="DESIGN.md section 5 C16",
+    note="The scan of merge_number_blocks and its five regular expressions are not modelled (deviation from the plan): the specification states what each class of input is owed and the library is judged against that. Five known findings (full stop after a decimal number, U+202F rewritten to U+00A0, Swiss apostrophe token, partly split numbers, the one-digit-per-token pattern) are listed and their examples judged in every run.",
+)
+
 NOT_YET = {}
 
 
